@@ -207,9 +207,8 @@ def _harness(shape, idx):
     cont = list(containers(shape))
     progs = {}
     for path, leaf in lv:
-        if not path:
-            continue
-        for src in nav_sources(path):
+        # a document that is a scalar itself is reached by the empty path: the bound variable, also through a list / map built around it
+        for src in (nav_sources(path) if path else ["doc", "[doc][0]", "{'k': doc}.k", "{'k': doc}['k']", "[doc, doc].map(x, x)[1]"]):
             for r in common.RUNNERS:
                 progs[(src, r)] = (path, leaf, common.make_program(src, r))
 
